@@ -421,9 +421,7 @@ def build_tables(rows):
     return feat_ids, key_ids, lines
 
 
-def generate(repo=None):
-    """(Re)generate coq/Gen/AncRegistry.v; returns the side-car dict."""
-    os.makedirs(GEN_DIR, exist_ok=True)
+def _remove_outputs():
     for p in (GEN_V, GEN_JSON):
         if os.path.exists(p):
             os.remove(p)
@@ -431,6 +429,20 @@ def generate(repo=None):
         p = GEN_V[:-2] + ext
         if os.path.exists(p):
             os.remove(p)
+
+
+def generate(repo=None):
+    """(Re)generate coq/Gen/AncRegistry.v; returns the side-car dict.
+    Fails closed: on any error the previous outputs are removed."""
+    os.makedirs(GEN_DIR, exist_ok=True)
+    try:
+        return _generate(repo)
+    except BaseException:
+        _remove_outputs()
+        raise
+
+
+def _generate(repo):
     note = load_plugin(repo or os.environ.get("VERIF_REPO", "/repo"))
     rows = trace()
     feat_ids, key_ids, lines = build_tables(rows)
@@ -455,8 +467,13 @@ def generate(repo=None):
         "].",
         "",
     ]
-    with open(GEN_V, "w") as fd:
-        fd.write("\n".join(src))
+    text = "\n".join(src)
+    old = open(GEN_V).read() if os.path.exists(GEN_V) else None
+    if old != text:
+        # changed table: drop the compiled file too, the build redoes it
+        _remove_outputs()
+        with open(GEN_V, "w") as fd:
+            fd.write(text)
     side = dict(
         note=note,
         feat_ids=feat_ids,
